@@ -89,7 +89,8 @@ fn build_root_sized(cw20: bool, fee: Fee3, first: u128) -> RootCase {
     let r = VaultRoot { label: "c06".into(), cw20, fees: fee, first, pre_loan: true };
     let h = deploy_vault(&r, &mut w);
     vault_deposit(&mut w, &h, ALICE, r.first).expect("first deposit");
-    direct_loan(&mut w, &h, &fee, first * 2 / 5, &[Step::Repay(RepayKind::Exact)]).expect("pre loan");
+    // (tolerated if it fails: an exactly repaid loan being refused is reported by loan.exact_payback_suffices on the cases)
+    let _ = direct_loan(&mut w, &h, &fee, first * 2 / 5, &[Step::Repay(RepayKind::Exact)]);
     // the adversary owns vault shares it can withdraw inside a callback
     let msgs = compile(&h, &fee, 0, &[Step::Deposit(5000)]);
     // (tolerated if it fails: the scripts that withdraw shares then simply revert; a vault that refuses deposits after a
